@@ -144,6 +144,12 @@ def cases(tier, rng):
         c["model"] = False
         c["tags"]["away_together"] = True
         cs.append(c)
+    # a reachable forward address whose service ends the connection with a reset: the connection was served directly, no upstream is touched
+    for ups in (["oksecure"], ["refused", "okinsecure"]):
+        c = mk(0, "okrst", ups, ["conn", "conn", "conn"], "forward-reset")
+        c["model"] = False
+        c["tags"]["fwdrst"] = True
+        cs.append(c)
     # a DNS upstream whose tunnel answers while its session layer never does (implementation only: the tunnel's own negotiation runs
     # for real over loopback UDP): it is abandoned at the handshake bound and the next upstream is used
     for ups in (["dnssilent"], ["dnssilent", "oksecure"]):
@@ -324,6 +330,14 @@ def oracle(case, impl):
     phys = [int(x) for x in p[i + 1:]]
     firstgood = next((k for k, b in enumerate(ups) if good(must, b)), None)
     out = []
+    if case.get("tags", {}).get("fwdrst"):
+        kinds = [k for k, _ in res]
+        out = []
+        if kinds != ["fwd", "fwd", "fwd"]:
+            out.append(("forward-not-first", "the forward address is reachable (its service resets after answering) but the connections went " + " ".join(kinds)))
+        if any(x > 0 for x in phys):
+            out.append(("upstream-touched-despite-forward", "upstreams were contacted although the connection had been served by the forward address (which ended it with a reset): %r" % phys))
+        return out
     if case.get("tags", {}).get("away_together"):
         kinds = [k for k, _ in res]
         if "hang" in kinds:
